@@ -33,6 +33,12 @@ use std::net::IpAddr;
 
 #[path = "c07_conn.rs"]
 mod c07_conn;
+/// version negotiation histories (scripted peer, generator of endless version error reports)
+#[path = "c07_nego.rs"]
+mod c07_nego;
+/// streams that stay open and silent after an offending header
+#[path = "c07_silent.rs"]
+mod c07_silent;
 
 //------------ expectation model ---------------------------------------------
 
@@ -1246,6 +1252,10 @@ pub fn run(ctx: &mut Ctx) {
 
     // the readers one level up: Client::step and the server's connection task
     c07_conn::run_conn(ctx);
+    // version negotiation histories against a scripted peer
+    c07_nego::run_nego_workload(ctx);
+    // streams that stay open and silent (PDU readers by hand, the client under a paused clock)
+    c07_silent::run_silent(ctx);
 
     ctx.evals(mon.evals);
     ctx.obs("reads_ok", mon.ok_reads);
